@@ -149,6 +149,7 @@ def run_scenario(sc):
         transports.append(d)
 
     main_calls = []
+    idle = [False]
     once_fns = {}
     last_fail = []
 
@@ -214,6 +215,15 @@ def run_scenario(sc):
     for evn in ("connect", "join", "ready", "leave", "disconnect"):
         comp.on(evn, rec(evn))
     comp.on("connectfailure", on_connectfailure)
+    if sc.get("seed", 0) % 5 == 3:
+        # a further listener that fails the first time it is told of a connect failure: the component carries on all the same
+        raised = []
+
+        def bad_listener(component, error):
+            if not raised:
+                raised.append(1)
+                raise KeyError("a connectfailure listener raised")
+        comp.on("connectfailure", bad_listener)
 
     if fw.NAME == "aio":
         async def create_connection(protocol_factory=None, host=None, port=None, **kw):
@@ -366,6 +376,9 @@ def run_scenario(sc):
             continue
         ts = fw.timers()
         if not ts:
+            # nothing is scheduled and nothing is on the wire: if start() has not completed and no connection is in flight,
+            # the component has gone to sleep for good
+            idle[0] = not done_calls and not world.pending
             break
         advance(max(0.0, ts[0] - fw.now()))
     note_done()
@@ -377,6 +390,7 @@ def run_scenario(sc):
         p[1].lose(clean=True)
     fw.settle()
     note_done()
+    obs["idle"] = bool(idle[0]) and not done_calls
     obs["done"] = done_calls[0][0] if done_calls else "pending"
     obs["doneCount"] = len(done_calls)
     obs["sessions"] = len(sessions)
